@@ -17,6 +17,7 @@
 (***************************************************************************)
 EXTENDS QuotaAccountingTrace
 RS == INSTANCE RuntimeShare
+VARIABLE scaleOn    \* min-quota scaling enabled for this segment (fixed during a behaviour)
 
 \* CPU is kept in milli-units inside the calculator
 Scale(d) == IF d = "cpu" THEN 1000 ELSE 1
@@ -30,12 +31,16 @@ RtOf(lv, d, n)  == LET k == CHOOSE k \in 1..Len(lv.sibs[d]) : lv.sibs[d][k].name
 TrueNodes(lv, d) ==
     [k \in 1..Len(lv.sibs[d]) |->
         LET n == lv.sibs[d][k].name IN
-        [req  |-> Scale(d) * Limited(n, d), min |-> Scale(d) * quota[n].min[d], guar |-> 0,
+        \* with min-quota scaling the guaranteed minimum in force is the (lazily refreshed, float-computed) scaled min the
+        \* calculator holds; it is taken from the log and only required to lie within 0 .. the declared min (MinOK below)
+        [req  |-> Scale(d) * Limited(n, d),
+         min  |-> IF scaleOn THEN lv.sibs[d][k].min ELSE Scale(d) * quota[n].min[d], guar |-> 0,
          w    |-> Scale(d) * quota[n].weight[d], lent |-> quota[n].lent]]
 
 LevelOK(lv, d, total) ==
     /\ lv.total[d] = total
     /\ SibNames(lv, d) = Kids(lv.parent)
+    /\ \A k \in 1..Len(lv.sibs[d]) : lv.sibs[d][k].min >= 0 /\ lv.sibs[d][k].min <= Scale(d) * quota[lv.sibs[d][k].name].min[d]     \* MinOK
     /\ RS!ShareOK(TrueNodes(lv, d), total, Rt(lv, d))
 
 RECURSIVE LevelsOK(_, _, _, _)
@@ -52,13 +57,14 @@ PathOK(levels, name) ==
     /\ \A i \in 1..(Len(levels) - 1) : levels[i + 1].parent = levels[i].name
 
 TRefresh ==
-    /\ IsEvent("refresh") /\ Skip
+    /\ IsEvent("refresh") /\ Skip /\ UNCHANGED scaleOn
     /\ Ev.name \in DOMAIN quota
     /\ PathOK(Ev.levels, Ev.name)
     /\ \A d \in Dims :
           /\ LevelsOK(Ev.levels, 1, d, Scale(d) * cluster[d])
           /\ Ev.result[d] = RtOf(Ev.levels[Len(Ev.levels)], d, Ev.name)     \* logged in calculator units
 
-TreeNext == TraceNext \/ TRefresh
-TreeSpec == TraceInit /\ [][TreeNext]_<<vars, tvars>>
+TreeInit == \E i \in Starts : TraceStart(i) /\ Init /\ scaleOn = Get(Trace[i], "scale", FALSE)
+TreeNext == (TraceNext /\ UNCHANGED scaleOn) \/ TRefresh
+TreeSpec == TreeInit /\ [][TreeNext]_<<vars, tvars, scaleOn>>
 =============================================================================
